@@ -115,7 +115,7 @@ def schedule_rules(chk, repo, q, rid_budget=None, rid_pal=None):
                     cov = sw.coverage(segs, kind)
                     ok, detail = (not cov), f'{len(cov or [])} {kind} steps on a lattice without such positions'
                 else:
-                    ok, detail = sw.check_budget(segs, kind, lo_, hi_, total)
+                    ok, detail = sw.check_budget(segs, kind, lo_, hi_, total, m.base_facts)
                 what = {'H1': 'single-site', 'H2': 'two-site', 'K': 'bond'}[kind]
                 chk.ob(rid_budget, where(repo, fi, fi.node),
                        f'{fi.name} [{label}]: {what} steps cover positions [{lo_}, {hi_}] with step fractions summing to '
